@@ -15,7 +15,7 @@ for s in $ids; do
   det=false; echo "$t" | grep -q "DETECTED" && det=true
   clauses=$(echo "$t" | grep -oE "clause=[^ ]+ site=[^ ]*" | sort -u | tr '\n' ';')
   echo "$s suite_identical=$suite demo_with_fail=$dw demo_without_ok=$dwo detected=$det $clauses"
-  python3 - "$s" "$suite" "$dw" "$dwo" "$dwof" "$det" "$clauses" <<'PY'
+  flock seeded/.lock python3 - "$s" "$suite" "$dw" "$dwo" "$dwof" "$det" "$clauses" <<'PY'
 import json,sys,os
 s,suite,dw,dwo,dwof,det,cl=sys.argv[1:]
 p='seeded/RESULTS.json'
